@@ -460,6 +460,41 @@ func c15Defer(c *Ctx, fn *ssa.Function, ct *ssa.Call, src ssa.Value, tmpFile ssa
 		}
 	}
 	c.check(okCond, "C15.4", name+":cleanup-condition", L.pos(remove.instr.Pos()), name+": temporary file is removed exactly when the function fails", why)
+
+	// (iii) the cleanup never replaces an error that is already set: a store into the named result inside the deferred closure
+	// is only allowed under a test that the result is still nil
+	for _, b := range closure.Blocks {
+		for _, in := range b.Instrs {
+			st, ok := in.(*ssa.Store)
+			if !ok {
+				continue
+			}
+			al := allocOf(st.Addr)
+			if al == nil || al.Parent() != fn || !isErrorType(al.Type().Underlying().(*types.Pointer).Elem()) {
+				continue
+			}
+			guarded := false
+			for _, iff := range controllingIfs(st) {
+				if bo, isB := iff.Cond.(*ssa.BinOp); isB && (bo.Op == token.EQL || bo.Op == token.NEQ) && (isNilConst(bo.X) || isNilConst(bo.Y)) {
+					other := bo.X
+					if isNilConst(bo.X) {
+						other = bo.Y
+					}
+					if ld, isL := other.(*ssa.UnOp); isL && allocOf(ld.X) == al {
+						nilSide := iff.Block().Succs[0]
+						if bo.Op == token.NEQ {
+							nilSide = iff.Block().Succs[1]
+						}
+						if nilSide == st.Block() || nilSide.Dominates(st.Block()) {
+							guarded = true
+						}
+					}
+				}
+			}
+			c.check(guarded, "C15.5", name+":deferred-cleanup-overwrites-error", L.pos(st.Pos()),
+				name+": the deferred cleanup does not overwrite the error the function is already returning (a failing write/sync must stay reported)", "store into the named result in the deferred closure: "+describe(st.Val))
+		}
+	}
 }
 
 // c15Propagation: the error of the publishing function reaches the process exit status.
